@@ -205,3 +205,41 @@ pub broadcast group sem {
     axiom_recreate_ih_res, axiom_recreate_ih_st, axiom_recreate_ih_res2, axiom_recreate_ih_st2,
 }
 }
+// ----- tuple access `t.N`: semantic function of TupleAccess::exec (unit tupleaccess.exec) and its dispatch axiom
+// (instruction.exec.dispatch_tupleaccess + tupleaccess.exec.is_the_semantic_function, restated over eval_res / eval_st)
+pub open spec fn tupleaccess_res(a: TupleAccess, s: int) -> ExecResult {
+    match eval_res(a.tuple.instruction, s) {
+        Err(e) => Err(e),
+        Ok(v) => Ok(v->Tuple_0.elems@[a.index as int]),
+    }
+}
+pub open spec fn tupleaccess_st(a: TupleAccess, s: int) -> int { eval_st(a.tuple.instruction, s) }
+/// field access `s.f`
+pub open spec fn fieldaccess_res(a: FieldAccess, s: int) -> ExecResult {
+    match eval_res(a.var.instruction, s) {
+        Err(e) => Err(e),
+        Ok(v) => Ok(v->Struct_0.map.fields@[name_chars(a.ident)]),
+    }
+}
+pub open spec fn fieldaccess_st(a: FieldAccess, s: int) -> int { eval_st(a.var.instruction, s) }
+pub mod sem_axioms2 { use super::*;
+#[verifier::external_body]
+pub broadcast proof fn axiom_eval_tupleaccess_res(a: Arc<TupleAccess>, s: int)
+    ensures #[trigger] eval_res(Instruction::TupleAccess(a), s) == tupleaccess_res(*a, s),
+{}
+#[verifier::external_body]
+pub broadcast proof fn axiom_eval_tupleaccess_st(a: Arc<TupleAccess>, s: int)
+    ensures #[trigger] eval_st(Instruction::TupleAccess(a), s) == tupleaccess_st(*a, s),
+{}
+#[verifier::external_body]
+pub broadcast proof fn axiom_eval_fieldaccess_res(a: Arc<FieldAccess>, s: int)
+    ensures #[trigger] eval_res(Instruction::FieldAccess(a), s) == fieldaccess_res(*a, s),
+{}
+#[verifier::external_body]
+pub broadcast proof fn axiom_eval_fieldaccess_st(a: Arc<FieldAccess>, s: int)
+    ensures #[trigger] eval_st(Instruction::FieldAccess(a), s) == fieldaccess_st(*a, s),
+{}
+pub broadcast group sem2 {
+    axiom_eval_tupleaccess_res, axiom_eval_tupleaccess_st, axiom_eval_fieldaccess_res, axiom_eval_fieldaccess_st,
+}
+}
